@@ -11,16 +11,21 @@ CONSTANTS Mode, Schemes, CredsSet, Hosts, Ports, SegWords, MaxSegs, Names, Value
 Tuples(S, n) == UNION {[1..k -> S] : k \in 0..n}
 Abstract == [scheme : Schemes, creds : CredsSet, host : Hosts, port : Ports, segs : Tuples(SegWords, MaxSegs),
              query : {None} \cup {Some(q) : q \in Tuples(Names \X Values, MaxPairs)}, frag : {None} \cup {Some(f) : f \in Frags}]
-VARIABLE a
-Init == a \in Abstract
-Next == FALSE /\ a' = a
+(* two-step fan-out (TLC evaluates initial states on one thread): first the authority part, then the rest *)
+Keys == [scheme : Schemes, creds : CredsSet, host : Hosts, port : Ports]
+Blank == [scheme |-> <<>>, creds |-> <<>>, host |-> <<>>, port |-> <<>>, segs |-> <<>>, query |-> None, frag |-> None]
+VARIABLES a, ph
+Init == a = Blank /\ ph = 0
+Next == \/ ph = 0 /\ ph' = 1 /\ \E k \in Keys : a' = [Blank EXCEPT !.scheme = k.scheme, !.creds = k.creds, !.host = k.host, !.port = k.port]
+        \/ ph = 1 /\ ph' = 2 /\ \E x \in Abstract : x.scheme = a.scheme /\ x.creds = a.creds /\ x.host = a.host /\ x.port = a.port /\ a' = x
+Active == ph = 2
 
 SetToSeq(S) == LET RECURSIVE f(_) f(T) == IF T = {} THEN <<>> ELSE LET x == CHOOSE y \in T : TRUE IN <<x>> \o f(T \ {x}) IN f(S)
 (* classes restricted to structural standard variations (no escapes): the standard itself normalises these *)
 PureStdClass == {Text(a, {}, V) : V \in {W \in SubsetsUpTo(StdVariations, K) : Applicable(a, W)}}
-StdClassInv == Mode = "class" => LET r0 == Parse(Text(a, {}, {}), None, None) IN
+StdClassInv == (Active /\ Mode = "class") => LET r0 == Parse(Text(a, {}, {}), None, None) IN
                  r0.res = "ok" /\ \A t \in PureStdClass : LET r == Parse(t, None, None) IN r.res = "ok" /\ r.u = r0.u
-Emit ==
+Emit == Active =>
   CASE Mode = "spell" -> \A t \in SpellingsC17(a, K) : PrintT(ToJson([t |-> "u", in |-> t]))
     [] Mode = "class" -> /\ PrintT(ToJson([t |-> "cls", std |-> TRUE, sp |-> SetToSeq(PureStdClass)]))
                          /\ PrintT(ToJson([t |-> "cls", std |-> FALSE, sp |-> SetToSeq(ClassOf(a, K, StdVariations \cup OtherVariations))]))
